@@ -52,11 +52,17 @@ Record icase := {
   i_cfg_same : bool }.        (* the configuration handed to both calls is unchanged *)
 
 Definition list_nat_eqb := list_eqb Nat.eqb.
-Definition judge_inst (c : icase) : verdict :=
-  let m := inst_twice (i_c c) (i_cfg c) in
-  {| v_model := i_ok c && list_nat_eqb (fst m) (i_ids1 c) && list_nat_eqb (snd m) (i_ids2 c) && i_cfg_same c;
-     v_class := 0;
-     v_spec := i_ok c && fresh_twice_ok (i_c c) (i_cfg c) (i_ids1 c) (i_ids2 c) && i_cfg_same c |}.
+(* fx2 = false: the current tree (guard Model.C08Inst.inst_guard = finding class 3, bug for bug as in judge_heap);
+   fx2 = true : with fixes/C08-default-below-tuple-shared.patch (no guard) *)
+Definition judge_inst (fx2 : bool) (c : icase) : verdict :=
+  let m := inst_twice fx2 (i_c c) (i_cfg c) in
+  let model := i_ok c && list_nat_eqb (fst m) (i_ids1 c) && list_nat_eqb (snd m) (i_ids2 c) && i_cfg_same c in
+  let spec := i_ok c && fresh_twice_ok (i_c c) (i_cfg c) (i_ids1 c) (i_ids2 c) && i_cfg_same c in
+  {| v_model := model;
+     v_class := if fx2 then 0%N
+                else if inst_guard (i_cfg c) then 0%N
+                else if negb model && negb spec then 9%N else 3%N;
+     v_spec := spec |}.
 
 (* ---- entry points of which only the try/finally skeleton is modelled (Model.C08Heap.aux_run) *)
 Record acase := {
@@ -64,25 +70,31 @@ Record acase := {
   a_fails : bool;             (* the input was built to make the call fail midway *)
   a_ok : bool;                (* the call returned *)
   a_globals : list bool;      (* per global: unchanged? *)
-  a_args_same : bool }.       (* argv list / environ dict unchanged *)
+  a_args_same : bool;         (* argv list / environ dict unchanged *)
+  a_defaults_same : bool }.   (* action.default of every declared action (value, type, identity) and get_defaults() without
+                                 default config files: as before *)
 
 Definition judge_aux (c : acase) : verdict :=
   let r := aux_run (a_entry c) (a_fails c) (mkst [] g0) in
   let s := out_st r in
   let m_ok := match r with Ok _ _ => true | Err _ _ => false end in
   let m_glob := map (fun x => N.eqb (s_g s x) 0) (seq 0 NGLOBALS) in
-  {| v_model := Bool.eqb m_ok (a_ok c) && list_eqb Bool.eqb m_glob (a_globals c) && a_args_same c;
+  {| v_model := Bool.eqb m_ok (a_ok c) && list_eqb Bool.eqb m_glob (a_globals c) && a_args_same c && a_defaults_same c;
      v_class := 0;
-     v_spec := forallb (fun b => b) (a_globals c) && a_args_same c |}.
+     v_spec := forallb (fun b => b) (a_globals c) && a_args_same c && a_defaults_same c |}.
 
 Inductive case := HeapCase (c : hcase) | InstCase (c : icase) | AuxCase (c : acase).
-Definition judge1_gen (fx : bool) (c : case) : verdict :=
-  match c with HeapCase h => judge_heap fx h | InstCase i => judge_inst i | AuxCase a => judge_aux a end.
+Definition judge1_gen (fx fx2 : bool) (c : case) : verdict :=
+  match c with HeapCase h => judge_heap fx h | InstCase i => judge_inst fx2 i | AuxCase a => judge_aux a end.
 
-Definition judge1 : case -> verdict := judge1_gen false.
+Definition judge1 : case -> verdict := judge1_gen false false.
 Definition judge (cs : list case) := judge_all judge1 cs.
 
 (* ---- after fixes/C08-container-below-tuple-shared.patch and fixes/C08-parse-object-adapts-in-place.patch
    have been applied: set JUDGE = "judge_fixed" in tie/props/c08.py *)
-Definition judge1_fixed : case -> verdict := judge1_gen true.
+Definition judge1_fixed : case -> verdict := judge1_gen true false.
 Definition judge_fixed (cs : list case) := judge_all judge1_fixed cs.
+
+(* ---- after fixes/C08-default-below-tuple-shared.patch has been applied as well: JUDGE = "judge_fixed2" *)
+Definition judge1_fixed2 : case -> verdict := judge1_gen true true.
+Definition judge_fixed2 (cs : list case) := judge_all judge1_fixed2 cs.
